@@ -16,8 +16,9 @@ from contracts.nonshear_env import patched
 LEVEL = "other"
 EXPLANATION = ("proof of the lemmas that carry the property (well-founded dependency rank, parameter normalisation for symbolic "
                "strain arrays of symbolic length, equality contract, isotropy/covariance for all contract parameters) on the real "
-               "tasks.py/shear.py; resolve()'s work-list loop under the Hoare loop rule on an abstract work list (any request list, any dependency lists); the "
-               "calculate / get_results loops over all request sets/orders remain a bounded stand-in (stated bound), never counted as discharged")
+               "tasks.py/shear.py; resolve()'s work-list loop and calculate()'s evaluation loop (with the real PhononContributionTaskResults methods) under the Hoare loop rule on "
+               "abstract work list / task list / graph / result stores: for request lists, dependency lists and task lists of any length every request is answered with the "
+               "canonical value of its class; bounded plumbing runs (request sets, orders, histories) in addition")
 T = "tasks."
 A_, P_, G_ = z3.Reals("A_ph P_ph Gap")
 
@@ -303,6 +304,252 @@ def resolve_loop_rule(s_tier):
                        "list is closed under get_dependencies, no class twice, every dependency precedes its dependant in self.data (A-NX)" % (nprem, npaths), time_s=total), note
 
 
+# ----------------------------------------------------------------------------------------------------------------------
+# calculate() and get_*_results(): the evaluation loop under the loop rule, the real PhononContributionTaskResults methods executed on class-keyed abstract stores
+def calculate_loop_rule(s_tier):
+    from vf import looprule
+    from contracts import tasks_loop_env as E, tasks_calc_env as V
+    tasks = importlib.import_module("cij.core.tasks")
+    fn = tasks.PhononContributionTaskList.calculate
+    pieces = looprule.Pieces(fn, 0)
+    import ast as _ast
+    if not isinstance(pieces.loop, _ast.For) or pieces.prefix or [st for st in pieces.suffix if not isinstance(st, _ast.Pass)]:
+        raise core.OutsideSubset("calculate() is no longer a single loop over the task list")
+    shape = V.map_shape(tasks.PhononContributionTaskResults.get_results_by_strain_keys)
+    I_ = z3.IntSort()
+    N = z3.Int("N")
+    TS, TK = z3.Function("TS", I_, E.Strain), z3.Function("TK", I_, E.Key)
+    tc = lambda t: E.CLS(TS(t), TK(t))
+    A1, A2 = z3.Function("A1", I_, I_, I_), z3.Function("A2", I_, I_, I_)
+    AR = z3.Function("AR", I_, I_)
+    HT, HS = z3.Function("HAS_T", E.Cls, z3.BoolSort()), z3.Function("HAS_S", E.Cls, z3.BoolSort())
+    GT, GS = z3.Function("GET_T", E.Cls, V.Val), z3.Function("GET_S", E.Cls, V.Val)
+    g = z3.Int("g")
+    a_, b_, c_ = z3.Int("a_"), z3.Int("b_"), z3.Const("c_", E.Cls)
+
+    def rng(n, *xs):
+        return z3.And(*[z3.And(x >= 0, x < n) for x in xs])
+    # post-condition of resolve() (obligation C04.resolve.loop_rule) in the vocabulary of the two dependency groups
+    resolve_post = [
+        z3.ForAll([a_], z3.Implies(rng(N, a_), z3.And(rng(N, E.ORD(a_)), rng(N, E.POS(a_)), E.POS(E.ORD(a_)) == a_, E.ORD(E.POS(a_)) == a_))),
+        z3.ForAll([a_, b_], z3.Implies(z3.And(rng(N, a_), V.ISSHEAR(tc(a_)), rng(V.NK1(tc(a_)), b_)),
+                                       z3.And(rng(N, A1(a_, b_)), tc(A1(a_, b_)) == V.D1(tc(a_), b_), E.POS(A1(a_, b_)) < E.POS(a_)))),
+        z3.ForAll([a_, b_], z3.Implies(z3.And(rng(N, a_), V.ISSHEAR(tc(a_)), rng(V.NK2(tc(a_)), b_)),
+                                       z3.And(rng(N, A2(a_, b_)), tc(A2(a_, b_)) == V.D2(tc(a_), b_), E.POS(A2(a_, b_)) < E.POS(a_)))),
+        z3.ForAll([a_], z3.Implies(rng(E.NREQ, a_), z3.And(rng(N, AR(a_)), tc(AR(a_)) == E.CLS(E.STRAIN0, E.KEYS(a_))))), N >= 0, E.NREQ >= 0]
+    axioms = V.value_axioms() + resolve_post
+
+    def invariant(hasT, getT, hasS, getS, pos):
+        return [("stored isothermal values are the canonical values of their classes", z3.ForAll([c_], z3.Implies(hasT(c_), getT(c_) == V.VALT(c_)))),
+                ("stored adiabatic values are the canonical values of their classes", z3.ForAll([c_], z3.Implies(hasS(c_), getS(c_) == V.VALS(c_)))),
+                ("every task before the current position has both results stored", z3.ForAll([a_], z3.Implies(z3.And(a_ >= 0, a_ < pos), z3.And(hasT(tc(E.ORD(a_))), hasS(tc(E.ORD(a_)))))))]
+
+    def setup(live_pos):
+        lv = V.Live(lambda c: HT(c), lambda c: GT(c), lambda c: HS(c), lambda c: GS(c))
+        V.LIVE[0] = lv
+        mk = lambda which: types.SimpleNamespace()
+        resT, resS = tasks.PhononContributionTaskResults.__new__(tasks.PhononContributionTaskResults), tasks.PhononContributionTaskResults.__new__(tasks.PhononContributionTaskResults)
+        resT.data, resS.data = V.AbsStore("T"), V.AbsStore("S")
+        me = types.SimpleNamespace(data=V.DataSeq(), modulus_isothermal_values=resT, modulus_adiabatic_values=resS, strain=E.AbsStrain(E.STRAIN0), keys=V.KeySeq(0), calculator=None)
+        return lv, me
+    # every hypothesis as an instance generator: the premises are proved from explicitly chosen instances only (quantifier-free queries: no reliance on the solver's
+    # instantiation heuristics, which made the first version of this proof flip between proved and unknown)
+    R_bij = lambda a: z3.Implies(rng(N, a), z3.And(rng(N, E.ORD(a)), rng(N, E.POS(a)), E.POS(E.ORD(a)) == a, E.ORD(E.POS(a)) == a))
+    R_dep = {1: lambda a, b: z3.Implies(z3.And(rng(N, a), V.ISSHEAR(tc(a)), rng(V.NK1(tc(a)), b)), z3.And(rng(N, A1(a, b)), tc(A1(a, b)) == V.D1(tc(a), b), E.POS(A1(a, b)) < E.POS(a))),
+             2: lambda a, b: z3.Implies(z3.And(rng(N, a), V.ISSHEAR(tc(a)), rng(V.NK2(tc(a)), b)), z3.And(rng(N, A2(a, b)), tc(A2(a, b)) == V.D2(tc(a), b), E.POS(A2(a, b)) < E.POS(a)))}
+    R_req = lambda a: z3.Implies(rng(E.NREQ, a), z3.And(rng(N, AR(a)), tc(AR(a)) == E.CLS(E.STRAIN0, E.KEYS(a))))
+    K2T = lambda c: z3.Implies(HT(c), GT(c) == V.VALT(c))
+    K2S = lambda c: z3.Implies(HS(c), GS(c) == V.VALS(c))
+    K1 = lambda h, pos: z3.Implies(z3.And(h >= 0, h < pos), z3.And(HT(tc(E.ORD(h))), HS(tc(E.ORD(h)))))
+    VAL_ax = lambda c: z3.And(V.NK1(c) >= 0, V.NK2(c) >= 0, z3.If(V.ISSHEAR(c), z3.And(V.VALT(c) == V.SHT(c, V.CAN1(c), V.CAN2(c)), V.VALS(c) == V.SHS(c, V.CAN1(c), V.CAN2(c))),
+                                                                   z3.And(V.VALT(c) == V.NST(c), V.VALS(c) == V.NSS(c))))
+    CAN_ax = {1: lambda c, j: V.CAN1(c)[j] == z3.If(z3.And(j >= 0, j < V.NK1(c)), V.VALT(V.D1(c, j)), V.DEF),
+              2: lambda c, j: V.CAN2(c)[j] == z3.If(z3.And(j >= 0, j < V.NK2(c)), V.VALT(V.D2(c, j)), V.DEF)}
+    Aof, Dof, NKof = {1: A1, 2: A2}, {1: V.D1, 2: V.D2}, {1: V.NK1, 2: V.NK2}
+    t_here = E.ORD(g)
+    c_here = tc(t_here)
+    base = [N >= 0, E.NREQ >= 0, rng(N, g), R_bij(g), VAL_ax(c_here)]
+
+    def dep_instances(grp, j, pos):
+        """everything known about the j-th dependency of group grp of the task at the current position"""
+        dep = Aof[grp](t_here, j)
+        return [R_dep[grp](t_here, j), R_bij(dep), R_bij(E.POS(dep)), K1(E.POS(dep), pos), K2T(Dof[grp](c_here, j)), K2S(Dof[grp](c_here, j))]
+    total, nprem, npaths = 0.0, 0, 0
+
+    def prove(goal, facts, name):
+        r = smt.prove(goal, facts, tier=s_tier, name=name, timeout_ms=20000 if s_tier == "quick" else 90000)
+        if r.status == core.REFUTED:
+            # the hypotheses enter through hand-picked instances: a model of their negated goal shows that THIS derivation fails, not that the premise is false
+            r = core.unknown("z3", "premise not derivable from the instantiated hypotheses (counter-model of the instances: %s)" % str(r.model)[:300], time_s=r.time_s)
+        return r
+
+    # ---------------- premise: {Inv(g), 0 <= g < N} body {Inv(g+1)}
+    with patched(tasks, PhononContributionTaskParams=V.AbsParams):
+        paths = symnp.Paths(list(base), max_paths=64)
+        base_facts = len(paths.facts)
+
+        def one_path():
+            lv, me = setup(g)
+
+            def on_generic(group, c, j):
+                paths.facts.extend([rng(NKof[group](c_here), j)] + dep_instances(group, j, g))
+            lv.on_generic = on_generic
+            hdr = pieces.loop_header({"self": me})[1]
+            if not isinstance(hdr, V.DataSeq):
+                raise core.OutsideSubset("calculate() does not loop over self.data")
+            try:
+                o = pieces.run_body({"self": me}, V.CalcTask(c_here))
+            except StopIteration:
+                return ("stop", lv, None)
+            except AssertionError as e:
+                if str(e).startswith("REFUTE:"):
+                    return ("refute", lv, str(e)[8:])
+                raise
+            return ("body", lv, o)
+        outs = paths.run(one_path)
+    generic_facts = list(paths.facts[base_facts:])
+    for pc, (kind, lv, o) in outs:
+        npaths += 1
+        facts = base + pc + lv.facts + generic_facts
+        if kind == "refute":
+            return core.refuted("looprule", o, witness_id="calculate-loop:order", replay=native_plumbing_small())
+        if kind == "stop":
+            # a look-up found nothing: the path must be impossible under the invariant and resolve's post-condition
+            r = prove(z3.BoolVal(False), facts, "lookup-succeeds")
+            total += r.time_s
+            nprem += 1
+            if r.status != core.PROVED:
+                r.detail = "calculate(): a result is looked up (%s) that need not have been stored yet (StopIteration) | %s" % ([e for e in lv.events if e[0] == "lookup"][-1:], r.detail)
+                if r.status == core.REFUTED:
+                    r.replay, r.witness_id = native_plumbing_small(), "calculate-loop:lookup"
+                return r, None
+            continue
+        if o.kind != "fall":
+            return core.refuted("looprule", "the loop body of calculate() leaves the loop (%s)" % o.kind, witness_id="calculate-loop:body", replay=native_plumbing_small())
+        hasT, getT, hasS, getS = lv.has["T"], lv.get["T"], lv.has["S"], lv.get["S"]
+        stores = [e for e in lv.events if e[0] == "store"]
+        if sorted(e[1] for e in stores) != ["S", "T"]:
+            raise core.OutsideSubset("the loop body stores %s" % [e[1] for e in stores])
+        shear_path = any(e[0] == "shear_value" for e in lv.events)
+        staged = []
+        if shear_path:
+            # the two dictionaries handed to the solver are the canonical dictionaries of the class: pointwise at an arbitrary position, then extensionality
+            toks = [t_ for t_ in z3_array_args([e[3] for e in stores])]
+            sk = z3.Int("sk_j")
+            for grp in (1, 2):
+                cand = [tk for tk in toks if True]
+                # the dictionary terms occur as the 2nd / 3rd argument of the stored SHT / SHS values
+                for v in [e[3] for e in stores]:
+                    if z3.is_app(v) and v.num_args() == 3:
+                        tok = v.arg(grp)
+                        goal = tok[sk] == (V.CAN1 if grp == 1 else V.CAN2)(c_here)[sk]
+                        r = prove(goal, facts + dep_instances(grp, sk, g) + [CAN_ax[grp](c_here, sk)], "the group-%d dictionary is the canonical one (position sk)" % grp)
+                        total += r.time_s
+                        nprem += 1
+                        if r.status != core.PROVED:
+                            r.detail = "calculate(), shear task: the dictionary of dependency group %d handed to the solver is not shown to hold the canonical values of exactly that group | %s" % (grp, r.detail)
+                            if r.status == core.REFUTED:
+                                r.replay, r.witness_id = native_plumbing_small(), "calculate-loop:dict%d" % grp
+                            return r, None
+                        staged.append(tok == (V.CAN1 if grp == 1 else V.CAN2)(c_here))
+        sk_c, sk_h = z3.Const("sk_c", E.Cls), z3.Int("sk_h")
+        inst = [K2T(sk_c), K2S(sk_c), K1(sk_h, g)]
+        gs = [("after: stored isothermal values canonical", z3.Implies(hasT(sk_c), getT(sk_c) == V.VALT(sk_c))),
+              ("after: stored adiabatic values canonical", z3.Implies(hasS(sk_c), getS(sk_c) == V.VALS(sk_c))),
+              ("after: every task up to the current position has both results stored", z3.Implies(z3.And(sk_h >= 0, sk_h < g + 1), z3.And(hasT(tc(E.ORD(sk_h))), hasS(tc(E.ORD(sk_h))))))]
+        gs += [("after: " + d, b_) for d, b_ in lv.bounds]
+        for name, goal in gs:
+            r = prove(goal, facts + staged + inst, name)
+            total += r.time_s
+            nprem += 1
+            if r.status != core.PROVED:
+                r.detail = "calculate(), %s task: premise `%s` of the loop rule is not valid | %s" % ("shear" if shear_path else "non-shear", name, r.detail)
+                if r.status == core.REFUTED:
+                    r.replay, r.witness_id = native_plumbing_small(), "calculate-loop:%s" % name[7:40]
+                return r, None
+    if npaths < 2:
+        raise core.OutsideSubset("only %d path(s) through the body of calculate() (shear / non-shear expected)" % npaths)
+    # ---------------- exit: {Inv(N)} get_isothermal_results() / get_adiabatic_results()
+    post_names = []
+    for which, getter, VAL, H, G in (("T", "get_isothermal_results", V.VALT, HT, GT), ("S", "get_adiabatic_results", V.VALS, HS, GS)):
+        with patched(tasks, PhononContributionTaskParams=V.AbsParams):
+            paths = symnp.Paths([N >= 0, E.NREQ >= 0], max_paths=16)
+            nb = len(paths.facts)
+
+            def get_path():
+                lv, me = setup(N)
+
+                def on_generic(group, c, j):
+                    if group != 0:
+                        raise core.OutsideSubset("get_*_results iterates a dependency key list")
+                    t = AR(j)
+                    paths.facts.extend([rng(E.NREQ, j), R_req(j), R_bij(t), R_bij(E.POS(t)), K1(E.POS(t), N), K2T(E.CLS(E.STRAIN0, E.KEYS(j))), K2S(E.CLS(E.STRAIN0, E.KEYS(j)))])
+                lv.on_generic = on_generic
+                try:
+                    res = getattr(tasks.PhononContributionTaskList, getter)(me)
+                except StopIteration:
+                    return ("stop", lv, None)
+                return ("ok", lv, res)
+            outs = paths.run(get_path)
+        for pc, (kind, lv, res) in outs:
+            facts = [N >= 0, E.NREQ >= 0] + pc + lv.facts + list(paths.facts[nb:])
+            if kind == "stop":
+                r = prove(z3.BoolVal(False), facts, "request-lookup-succeeds")
+                total += r.time_s
+                nprem += 1
+                if r.status != core.PROVED:
+                    r.detail = "%s(): a requested component has no stored result (StopIteration) | %s" % (getter, r.detail)
+                    if r.status == core.REFUTED:
+                        r.replay, r.witness_id = native_plumbing_small(), "results:" + getter
+                    return r, None
+                continue
+            if not isinstance(res, dict) or len(res) != 1:
+                raise core.OutsideSubset("%s() returns %r" % (getter, res))
+            (k, v), = res.items()
+            jr = [e[3] for e in lv.events if e[0] == "iterate_keys" and e[1] == 0][-1]
+            goal = z3.And(k.z == E.KEYS(jr), v.z == VAL(E.CLS(E.STRAIN0, E.KEYS(jr))))
+            name = "post: %s()[key r] is the canonical %s value of the class of (strain, key r) -- a function of that class alone" % (getter, "isothermal" if which == "T" else "adiabatic")
+            r = prove(goal, facts, name)
+            total += r.time_s
+            nprem += 1
+            post_names.append(name)
+            if r.status != core.PROVED:
+                r.detail = "%s | %s" % (name, r.detail)
+                if r.status == core.REFUTED:
+                    r.replay, r.witness_id = native_plumbing_small(), "results:" + getter
+                return r, None
+    note = {"loop_construct_replaced_by_rule": "for task in self.data (calculate)", "get_results_by_strain_keys_shape": shape, "premises": nprem, "body_paths": npaths,
+            "invariant": ["stored isothermal / adiabatic values are the canonical values of their classes", "every task before the current position has both results stored"], "post": post_names,
+            "assumes": "post-condition of resolve() (C04.resolve.loop_rule), that get_dependencies() lists exactly (strain, get_modulus_keys()) + (strain_rotated, get_modulus_keys_rotated()) "
+                       "(C04.dependencies_are_the_two_key_groups), C01/C02/C03 contracts: contribution values are functions of the task's class and, for shear, of the two dictionaries"}
+    return core.proved("z3", "loop rule on calculate() and the real PhononContributionTaskResults methods for task lists and key lists of ANY length: %d premises over %d paths; every look-up of a "
+                       "dependency's result succeeds, shear tasks receive the ISOTHERMAL results of exactly their two key groups for both of their values, every stored value is the canonical "
+                       "value of its class, and get_isothermal_results() / get_adiabatic_results() answer every request with the canonical value of its class (request-independent)"
+                       % (nprem, npaths), time_s=total), note
+
+
+def z3_array_args(vals):
+    return [v.arg(k) for v in vals if z3.is_app(v) and v.num_args() == 3 for k in (1, 2)]
+
+
+def dependency_groups():
+    """[F over the 15 shear keys, several strain fields] get_dependencies() = [(strain, k) for k in get_modulus_keys()] + [(strain_rotated, k) for k in get_modulus_keys_rotated()]"""
+    n = 0
+    with tasks_env.stubbed() as tk:
+        for strain in ([[0.2, 0.3, 0.5]], [[1 / 3, 1 / 3, 1 / 3]], [[0.25, 0.25, 0.5], [0.3, 0.3, 0.4]]):
+            for key in [k for k in tasks_env.all_keys() if k.is_shear]:
+                t = tk.PhononContributionTask(numpy.array(strain), key, None)
+                deps = list(t.get_dependencies())
+                want = [(t.calculator.strain, k) for k in t.calculator.get_modulus_keys()] + [(t.calculator.strain_rotated, k) for k in t.calculator.get_modulus_keys_rotated()]
+                n += 1
+                if len(deps) != len(want) or any(not (numpy.array_equal(a[0], b[0]) and a[1] == b[1]) for a, b in zip(deps, want)):
+                    return core.refuted("finite", "get_dependencies() of %r is not the two key groups the evaluation looks up" % (key,), witness_id="depgroups%r" % (key,), replay={"reproduced": True})
+            for key in [k for k in tasks_env.all_keys() if not k.is_shear]:
+                if list(tk.PhononContributionTask(numpy.array(strain), key, None).get_dependencies()):
+                    return core.refuted("finite", "non-shear key %r has dependencies" % (key,), witness_id="depgroups%r" % (key,), replay={"reproduced": True})
+    return core.proved("finite", "%d (strain field, shear key) pairs: the dependencies are exactly the two groups calculate() looks up; non-shear keys have none" % n)
+
+
 def resolve_traces(seed=0, n=8):
     """engine self-check and vacuity guard of the loop rule: resolve's own prefix / body / suffix, executed by CPython on the REAL classes (contributions stubbed) for
     concrete request lists, reproduce resolve() itself, and the invariant of the loop-rule obligation (ghost witnesses found by search) holds at every loop head"""
@@ -416,10 +663,9 @@ def run(s):
              "A-ALLCLOSE: strain fields within numpy.allclose tolerance are identified as one task",
              "C01/C02 contracts of the non-shear contributions (c_ii = A/(5 e_i e_j)+P/(3 e_i), c_ij = A/(15 e_i e_j)+P, adiabatic gap G/(9 e_i e_j))",
              "A-FP")
-    s.undecided_part("resolve() is under the loop rule for request lists of any length (every request has a task, closure under get_dependencies, dependencies first); NOT "
-                     "mechanised: its termination (multiset order on ranks), and the two loops of calculate() / get_results_by_strain_keys() -- that every look-up of a "
-                     "dependency's result succeeds and that a component's value is a function of its class alone follow from the post-condition of resolve by induction "
-                     "on the rank; exercised by the bounded plumbing runs (request sets, orders, histories) with symbolic values")
+    s.undecided_part("termination of the work loop of resolve() (each pop replaces an entry by entries of strictly smaller rank: multiset order, not mechanised); task identity is the "
+                     "equivalence class of the parameters (A-ALLCLOSE: numpy.allclose treated as transitive, hash consistent with it); the values of the contributions enter the "
+                     "evaluation loop as uninterpreted functions of the class (non-shear: C01/C02) and of the class and the two result dictionaries (shear: C03)")
 
     # ---------------- L1: well-founded dependency relation [F over the 15 shear keys; strains generic]
     def l1():
@@ -576,6 +822,19 @@ def run(s):
         pass
     except Exception as e:
         s.notes["resolve_traces"] = "not applicable to this source: %r" % (e,)
+
+    def calculate_ob():
+        out = calculate_loop_rule(tier)
+        if isinstance(out, tuple):
+            if out[1] is not None:
+                s.notes["calculate_loop_rule"] = out[1]
+            return out[0]
+        return out
+    s.oblige("C04.calculate_and_results.loop_rule(all task lists)", calculate_ob, [T + "PhononContributionTaskList.calculate", T + "PhononContributionTaskList.get_isothermal_results",
+                                                                                 T + "PhononContributionTaskList.get_adiabatic_results", T + "PhononContributionTaskResults.get_results_by_strain_keys",
+                                                                                 T + "PhononContributionTaskResults.__getitem__", T + "PhononContributionTaskResults.__setitem__"],
+             fallback=native_plumbing_small)
+    s.oblige("C04.dependencies_are_the_two_key_groups", dependency_groups, [T + "PhononContributionTask.get_dependencies"], kind="finite")
 
     # the isotropy / covariance lemmas above ASSUME the C01 contract of the non-shear classes (prefactors 1/(5 e_i e_j), 1/(15 e_i e_j), 1/(3 e); which strain
     # fraction goes with which axis).  nonshear.py is one of this property's anchored files: the assumption is discharged here on the real classes by the
@@ -745,7 +1004,8 @@ MANIFEST = {
     "engine": "symnp", "category": "other",
     "technique": "contract-based deductive verification of the lemmas (rank function, normalisation on symbolic arrays via z3, equality "
                  "contract, isotropy/covariance as coefficient identities for all contract parameters) and of resolve()'s work-list loop (Hoare loop rule: "
-                 "the method's own statements executed on an abstract work list, invariant premises by z3); bounded run-time contracts for calculate / get_results",
+                 "the method's own statements executed on an abstract work list, invariant premises by z3) and of calculate() / get_*_results() (loop rule, the real "
+                 "results-store methods executed on class-keyed abstract stores, quantifier-free premises); bounded run-time contracts in addition",
     "text": "Discharged: (L1) every dependency of a shear key has strictly smaller rank (acyclic, depth <= 2) on the real get_dependencies "
             "for all 15 keys; (L2) _make_param_by_strain_key on a symbolic strain array of symbolic length returns e_i/sum e, e_k/sum e for "
             "the six non-shear keys; the equality/hash contract of task parameters over 21x21 keys; (L3) with the C01/C02 contracts "
@@ -755,11 +1015,15 @@ MANIFEST = {
             "(tasks = classes of their parameters): initialisation, preservation over all four paths of the body and exit of a seven-clause invariant are "
             "discharged for request lists, strain fields and dependency lists of any length -- every request has a task, no class twice, the list is closed "
             "under get_dependencies, every edge raises the rank (acyclic) and, by networkx's contract, every dependency precedes its dependant in self.data; the "
-            "invariant is also evaluated at every loop head of concrete runs of the same pieces on the real classes (vacuity guard, pieces = function); the C01 "
-            "contract the lemmas assume is discharged on the real non-shear classes. Bounded: completeness, request-independence (value identical to the singleton request), closure and topological order over "
+            "invariant is also evaluated at every loop head of concrete runs of the same pieces on the real classes (vacuity guard, pieces = function); "
+            "(calculate) the evaluation loop and the real __setitem__ / __getitem__ / get_results_by_strain_keys run on class-keyed abstract stores: from resolve's "
+            "post-condition every look-up of a dependency's result succeeds, a shear task receives the isothermal results of exactly its two key groups for both of its "
+            "values, every stored value is the canonical value of its class (defined by recursion on the rank) and get_isothermal_results / get_adiabatic_results answer "
+            "request r with the canonical value of the class of (strain, key r) -- completeness and request-independence for all request lists; the C01 "
+            "contract the lemmas assume is discharged on the real non-shear classes. Bounded as well: completeness, request-independence (value identical to the singleton request), closure and topological order over "
             "enumerated request sets/orders/histories with symbolic values.",
-    "note": "Task identity is abstracted to an equivalence class (A-ALLCLOSE: allclose treated as transitive); termination of the work loop and the loops of "
-            "calculate() / get_results_by_strain_keys() are not mechanised: bounded stand-in, "
+    "note": "Task identity is abstracted to an equivalence class (A-ALLCLOSE: allclose treated as transitive); termination of the work loop is not mechanised; contribution "
+            "values are uninterpreted functions of the class (C01-C03 contracts). Bounded stand-in: "
             "210 pairs + 42 full orders + 60 (quick) / 4000 (thorough) random requests per generic field, 5 strain fields, one 4-step "
             "history. Isotropy/covariance are unbounded in A, P, gap but enumerated in the strain field (3 quick / 13 thorough fields). "
             "networkx.topological_sort trusted; A-ALLCLOSE.",
